@@ -4,7 +4,6 @@ import (
 	"fmt"
 	"strconv"
 	"strings"
-	"unicode"
 	"unicode/utf8"
 )
 
@@ -25,10 +24,8 @@ func (o Opts) max() rune {
 // to give a disagreement a precise, stable key (does this single deviation explain it?), never to
 // decide whether there is a disagreement.
 type Quirks struct {
-	ScriptAlwaysFolded        bool // \p{<Script>} is closed under case folding even without (?i)
-	StandaloneEscapeNotFolded bool // \w \W \p{<Property>} \p{Ascii} outside brackets ignore (?i)
-	CategoryFoldByTable       bool // (?i)\p{<Category>} = category + unicode.FoldCategory[name] (absent for LC)
-	SingleRuneClassIsChar     bool // inside brackets a class escape with exactly one member acts as a character
+	ScriptAlwaysFolded    bool // \p{<Script>} is closed under case folding even without (?i)
+	SingleRuneClassIsChar bool // inside brackets a class escape with exactly one member acts as a character
 }
 
 // Kind of an AST node.
@@ -648,16 +645,19 @@ func (p *parser) escape(inClass bool) esc {
 func (p *parser) standaloneClass(e esc) Set {
 	set := e.pos
 	if p.fold {
-		switch {
-		case p.q.StandaloneEscapeNotFolded && (e.perl || e.kind == KindProperty || e.kind == KindAscii || e.kind == KindAny):
-		case p.q.CategoryFoldByTable && e.kind == KindCategory:
-			set = set.Union(FromTable(unicode.FoldCategory[e.name]))
-		default:
-			set = set.Fold(p.o.Bytes)
+		// Nothing documents whether (?i) reaches into a class escape that stands alone: lex folds
+		// \p{<Category>} and \p{<Script>} through Go's Fold tables, but not \w \W, \p{<Property>},
+		// \p{Ascii} (so "(?i)\w" lacks U+017F/U+212A although "(?i)[\w]" and "(?i)s" have them), and
+		// RE2/Go's regexp do not agree with each other either. Only classes that are closed under
+		// case folding anyway (\d \s \p{Nd} \p{Any} ..) are checked here; inside brackets the
+		// fold of the whole bracket expression is documented by regexp_test.go and is checked.
+		folded := set.Fold(p.o.Bytes)
+		if !folded.Equal(set) {
+			p.unspec("fold-of-standalone-class-escape")
 		}
+		set = folded
 	}
 	if e.negated {
-		// Negation applies to the case-insensitive class, as for "(?i)[^b-e]" in regexp_test.go.
 		set = set.Complement(p.o.max())
 	}
 	return set
